@@ -9,18 +9,14 @@ package c17
 //	c17normRange  loader.NormalizeProjectName on every single-rune string of a code-point block
 
 import (
-	"context"
 	"encoding/json"
 	"fmt"
-	"os"
-	"path/filepath"
 	"regexp"
 	"sort"
 	"strings"
 	"time"
 	"unicode/utf8"
 
-	"github.com/compose-spec/compose-go/v2/cli"
 	"github.com/compose-spec/compose-go/v2/loader"
 
 	"verifharness/core"
@@ -33,13 +29,15 @@ type c17Doc struct {
 type c17EnvFile struct {
 	N     string      `json:"n,omitempty"`
 	Dir   bool        `json:"dir,omitempty"`
-	Lines [][2]string `json:"lines"`
+	Lines [][2]string `json:"lines"`          // simple KEY=VALUE lines (nil when Text is free-form)
+	Text  *string     `json:"text,omitempty"` // free-form content (no structured form: spec oracle off)
 }
 
 type c17Opt struct {
 	Op string   `json:"op"` // name | env | osenv | envfiles | dotenv
 	V  string   `json:"v,omitempty"`
-	A  bool     `json:"alt,omitempty"` // workdir: true = the alternative directory, false = ""
+	A  bool     `json:"alt,omitempty"` // workdir (builder): true = the alternative directory, false = ""
+	D  *int     `json:"d,omitempty"`   // workdir (wire): directory index; absent = ""
 	L  []string `json:"l,omitempty"`
 }
 
@@ -62,6 +60,9 @@ var c17ErrClasses = []struct {
 	{regexp.MustCompile(`invalid project name`), "invalidName"},
 	{regexp.MustCompile(`project name must not be empty`), "emptyName"},
 	{regexp.MustCompile(`Couldn't find env file`), "envNotFound"},
+	{regexp.MustCompile(`^read .*: is a directory`), "configIsDir"},
+	{regexp.MustCompile(`no configuration file provided`), "noConfig"},
+	{regexp.MustCompile(`^(stat|open) .*: no such file or directory`), "configNotFound"},
 	{regexp.MustCompile(`is a directory`), "envIsDir"},
 	{regexp.MustCompile(`^failed to read .*`), "dotenvParse"},
 	{regexp.MustCompile(`strconv\.ParseBool`), "disableParse"},
@@ -78,14 +79,14 @@ func c17ErrClass(err error) string {
 	return "other: " + s
 }
 
-func c17Yaml(a c17Args, fi, di int, d c17Doc) string {
+func c17Yaml(probe string, fi, di int, d c17Doc) string {
 	var b strings.Builder
 	if d.Name != nil {
 		q, _ := json.Marshal(*d.Name)
 		b.WriteString("name: " + string(q) + "\n")
 	}
-	if fi == 0 && di == 0 {
-		q, _ := json.Marshal(a.Probe)
+	if di == 0 {
+		q, _ := json.Marshal(probe)
 		b.WriteString("services:\n  s:\n    image: x\n    labels:\n      probe: " + string(q) + "\n")
 	} else {
 		b.WriteString(fmt.Sprintf("x-doc: \"%d.%d\"\n", fi, di))
@@ -94,141 +95,14 @@ func c17Yaml(a c17Args, fi, di int, d c17Doc) string {
 }
 
 func c17EnvText(f c17EnvFile) string {
+	if f.Text != nil {
+		return *f.Text
+	}
 	var b strings.Builder
 	for _, l := range f.Lines {
 		b.WriteString(l[0] + "=" + l[1] + "\n")
 	}
 	return b.String()
-}
-
-// realC17Load materialises the world, replaces the process environment, and runs the real option functions and load.
-func realC17Load(raw json.RawMessage) any {
-	var a c17Args
-	if err := json.Unmarshal(raw, &a); err != nil {
-		return map[string]any{"bad": err.Error()}
-	}
-	root, err := os.MkdirTemp(os.Getenv("VERIF_SCRATCH"), "c17-")
-	if err != nil {
-		return map[string]any{"bad": err.Error()}
-	}
-	defer os.RemoveAll(root)
-	pdir := filepath.Join(root, "p", a.Dir)
-	if err := os.MkdirAll(pdir, 0o755); err != nil {
-		return map[string]any{"bad": "mkdir: " + err.Error()}
-	}
-	if filepath.Base(pdir) != a.Dir {
-		return map[string]any{"bad": "directory name not usable"}
-	}
-	var configs []string
-	for fi, f := range a.Files {
-		var parts []string
-		for di, d := range f {
-			parts = append(parts, c17Yaml(a, fi, di, d))
-		}
-		p := filepath.Join(pdir, fmt.Sprintf("compose%d.yaml", fi))
-		if err := os.WriteFile(p, []byte(strings.Join(parts, "---\n")), 0o644); err != nil {
-			return map[string]any{"bad": err.Error()}
-		}
-		configs = append(configs, p)
-	}
-	edir := filepath.Join(root, "e")
-	os.MkdirAll(edir, 0o755)
-	for _, f := range a.EnvFiles {
-		p := filepath.Join(edir, f.N)
-		if f.Dir {
-			os.MkdirAll(p, 0o755)
-		} else if err := os.WriteFile(p, []byte(c17EnvText(f)), 0o644); err != nil {
-			return map[string]any{"bad": err.Error()}
-		}
-	}
-	if a.DotEnv != nil {
-		p := filepath.Join(pdir, ".env")
-		if a.DotEnv.Dir {
-			os.MkdirAll(p, 0o755)
-		} else if err := os.WriteFile(p, []byte(c17EnvText(*a.DotEnv)), 0o644); err != nil {
-			return map[string]any{"bad": err.Error()}
-		}
-	}
-	adir := filepath.Join(root, "q", a.AltDir)
-	if a.AltDir != "" {
-		if err := os.MkdirAll(adir, 0o755); err != nil || filepath.Base(adir) != a.AltDir {
-			return map[string]any{"bad": "alternative directory name not usable"}
-		}
-		if a.AltDot != nil {
-			p := filepath.Join(adir, ".env")
-			if a.AltDot.Dir {
-				os.MkdirAll(p, 0o755)
-			} else if err := os.WriteFile(p, []byte(c17EnvText(*a.AltDot)), 0o644); err != nil {
-				return map[string]any{"bad": err.Error()}
-			}
-		}
-	}
-	var fns []cli.ProjectOptionsFn
-	for _, o := range a.Opts {
-		switch o.Op {
-		case "name":
-			fns = append(fns, cli.WithName(o.V))
-		case "env":
-			fns = append(fns, cli.WithEnv(append([]string(nil), o.L...)))
-		case "osenv":
-			fns = append(fns, cli.WithOsEnv)
-		case "envfiles":
-			var l []string
-			for _, n := range o.L {
-				l = append(l, filepath.Join(edir, n))
-			}
-			fns = append(fns, cli.WithEnvFiles(l...))
-		case "dotenv":
-			fns = append(fns, cli.WithDotEnv)
-		case "workdir":
-			if o.A {
-				if a.AltDir == "" {
-					return map[string]any{"bad": "workdir without altdir"}
-				}
-				fns = append(fns, cli.WithWorkingDirectory(adir))
-			} else {
-				fns = append(fns, cli.WithWorkingDirectory(""))
-			}
-		default:
-			return map[string]any{"bad": "unknown option " + o.Op}
-		}
-	}
-	// the OS environment of this (single-threaded) child becomes exactly a.OS for the duration of the case
-	saved := os.Environ()
-	os.Clearenv()
-	defer func() {
-		os.Clearenv()
-		for _, kv := range saved {
-			if k, v, ok := strings.Cut(kv, "="); ok {
-				os.Setenv(k, v)
-			}
-		}
-	}()
-	for _, kv := range a.OS {
-		k, v, ok := strings.Cut(kv, "=")
-		if !ok || os.Setenv(k, v) != nil {
-			return map[string]any{"bad": "os env entry not settable"}
-		}
-	}
-	po, err := cli.NewProjectOptions(configs, fns...)
-	if err != nil {
-		return map[string]any{"err": c17ErrClass(err), "at": "options"}
-	}
-	p, err := po.LoadProject(context.Background())
-	if err != nil {
-		return map[string]any{"err": c17ErrClass(err), "at": "load"}
-	}
-	env := map[string]string{}
-	for k, v := range p.Environment {
-		env[k] = v
-	}
-	probe := ""
-	if s, ok := p.Services["s"]; ok {
-		probe = s.Labels["probe"]
-	} else {
-		return map[string]any{"bad": "service s missing"}
-	}
-	return map[string]any{"ok": map[string]any{"name": p.Name, "env": env, "probe": probe}}
 }
 
 var c17NameRe = regexp.MustCompile(`^[a-z0-9][a-z0-9_-]*$`)
